@@ -341,6 +341,23 @@ func BaseStubs() map[string]StubFn {
 	})
 	st["strings.ReplaceAll"] = pure(strings.ReplaceAll, nil)
 	st["strings.Split"] = pure(strings.Split, func(r *Run, a []value) value {
+		if isVec(a[0]) {
+			sp, ok := a[1].(string)
+			if !ok || len(sp) != 1 {
+				panic(unsupported("Split of vector string on non-single-byte separator"))
+			}
+			v := a[0].(runesV)
+			var out []value
+			start := 0
+			for i, c := range v.cps {
+				if r.branch(simplifyBool(Eq(c, IntT(int64(sp[0]))))) {
+					out = append(out, runesV{v.cps[start:i], v.bytes}.norm())
+					start = i + 1
+				}
+			}
+			out = append(out, runesV{v.cps[start:], v.bytes}.norm())
+			return out
+		}
 		sep := strArg(a[1])
 		if !sep.IsConst() || sep.S == "" {
 			panic(unsupported("Split with symbolic/empty separator"))
